@@ -182,12 +182,16 @@ func ValidateCounterpartyID(id string, protocol ProtocolID) error {
 	return nil
 }
 
-// isInteger returns true if the string can be converted to
-// an integer, false otherwise.
+// isInteger returns true if the string is the canonical decimal
+// representation of a 32-bit unsigned integer, false otherwise.
+//
+// CCTP and Hyperlane domains are uint32 values and transfers are
+// matched and recorded under their canonical decimal form, so signs,
+// leading zeros and out-of-range values must not be accepted.
 func isInteger(s string) bool {
-	_, err := strconv.Atoi(s)
+	v, err := strconv.ParseUint(s, 10, 32)
 
-	return err == nil
+	return err == nil && strconv.FormatUint(v, 10) == s
 }
 
 // ID generates an internal identifier for a tuple (bridge protocol, chain).
